@@ -25,6 +25,15 @@ def writesWithin (fp : List ObjKey) (writes : List ObjKey) : Bool :=
 
 def disjointKeys (a b : List ObjKey) : Bool := a.all fun k => !b.contains k
 
+/-- `C19.action_frame`: a call leaves every record of the shared map whose action is not one of its own
+    exactly as it was (rows are (key, action, age)) -/
+def actionFrame (allowed : List String) (pre post : List (String × String × Int)) : Bool :=
+  (pre.filter fun r => !allowed.contains r.2.1) == (post.filter fun r => !allowed.contains r.2.1)
+
+/-- `C19.closure_error_reported`: when the closure (the API write) failed, the call says retry-with-error;
+    it never reports completion -/
+def errorReported (closureErr retry err : Bool) : Bool := !closureErr || (retry && err)
+
 /-! ### who is who -/
 
 /-- a Kubernetes namespace or object name never contains '/'; neither does a UID -/
@@ -99,6 +108,26 @@ def brTraceOf (rels : List (Nat × String × String)) (tr : List (Ev EOp)) : Boo
 
 def brAllDistinct (rels : List (Nat × String × String)) : Bool :=
   rels.all fun a => noSlash a.2.1 && rels.all fun b => a.1 == b.1 || relDistinct a.2.1 a.2.2 b.2.1 b.2.2
+
+/-- `C19.create_respects_expectation`: a BatchRelease may create a canary Deployment only when it has no
+    unobserved creation under its own key, or that expectation has been unsatisfied for the timeout.
+    `pending`: some action of the key has a non-empty set before the call; `unsatAge`: age of the first
+    unsatisfied time stamp before the call -/
+def createAllowed (pending : Bool) (unsatAge : Option Nat) (timeout : Nat) (res : CreateOut) : Bool :=
+  if res = .created then
+    !pending || (match unsatAge with | some a => decide (a ≥ timeout) | none => decide (timeout = 0))
+  else true
+
+/-- the two inputs of `createAllowed`, read from the store before the call -/
+def pendingOf (st : ExpStore) (ck : String) : Bool :=
+  match aget st ck with
+  | some e => e.objs.any (fun x => x.2.length > 0)
+  | none => false
+
+def unsatAgeOf (st : ExpStore) (now : Nat) (ck : String) : Option Nat :=
+  match aget st ck with
+  | some e => e.firstUnsat.map (now - ·)
+  | none => none
 
 /-! ### API objects -/
 
